@@ -370,7 +370,16 @@ def callback_guard(R, rule, fn, inline=()):
     paths that have established that it is not null."""
     from .. import sym as _sym
     ck = R.ck
-    eng = _sym.Engine(R.u, sizeof=R.so, inline=set(INLINE_SMALL) | set(inline))
+    # leaf helpers (no calls, no loops) are looked into, whatever they are called: a test of the pointer may be wrapped
+    leaf = set()
+    for nm, f in R.u.functions.items():
+        b = R.u.body(nm)
+        if b is None or nm == fn or not (cast.node_file(f) or '').endswith(('registers/core.c', 'register-table.h', 'internal.h')):
+            continue
+        kinds = {cast.kind(x) for x in cast.walk(b)}
+        if not kinds & {'CallExpr', 'WhileStmt', 'ForStmt', 'DoStmt', 'GotoStmt'}:
+            leaf.add(nm)
+    eng = _sym.Engine(R.u, sizeof=R.so, inline=set(INLINE_SMALL) | set(inline) | leaf)
     ps = R.paths(fn, rule, eng)
     if ps is None:
         return
